@@ -31,10 +31,11 @@ def run_campaigns(prop, seed, runs, nproc, budget, max_len=2048,
             procs.append((wd, subprocess.Popen(
                 [sys.executable, "-B", target, prop, wd, "-runs=%d" % runs,
                  "-seed=%d" % (1 + (seed * 131 + k) % (2 ** 31 - 2)),
-                 "-max_len=%d" % max_len, "-timeout=60",
+                 "-max_len=%d" % max_len, "-timeout=300",
+                 "-artifact_prefix=%s/" % wd,
                  "-max_total_time=%d" % budget, "-print_final_stats=1"],
                 stdout=subprocess.DEVNULL, stderr=subprocess.PIPE, env=env)))
-        extra, execs, cov, corp = [], 0, 0, 0
+        extra, execs, cov, corp, aborted = [], 0, 0, 0, 0
         for wd, pr in procs:
             try:
                 _, err = pr.communicate(timeout=budget + 300)
@@ -57,10 +58,25 @@ def run_campaigns(prop, seed, runs, nproc, budget, max_len=2048,
                 with open(fj) as f:
                     for sig, case in json.load(f)["findings"].items():
                         extra.append(case)
+            # inputs libFuzzer itself gave up on (timeout / crash / oom of
+            # the campaign process): judged in-process like any other case,
+            # where the CPU watchdog tells a busy loop from a busy machine
+            import glob
+            import importlib
+            mod = importlib.import_module("props." + prop.lower())
+            for art in sorted(glob.glob(os.path.join(wd, "timeout-*")) +
+                              glob.glob(os.path.join(wd, "crash-*")) +
+                              glob.glob(os.path.join(wd, "oom-*"))):
+                with open(art, "rb") as f:
+                    case = mod.fuzz_case(f.read())
+                if case is not None:
+                    extra.append(case)
+                    aborted += 1
         return extra, {"tool": "atheris/libFuzzer", "processes": nproc,
                        "from_empty_corpus": empty_corpus_procs,
                        "executions": execs, "coverage_edges": cov,
                        "corpus_units": corp,
-                       "recorded_failing_inputs": len(extra)}
+                       "recorded_failing_inputs": len(extra) - aborted,
+                       "inputs_the_fuzzer_gave_up_on": aborted}
     finally:
         shutil.rmtree(base, ignore_errors=True)
